@@ -500,6 +500,20 @@ def bsliceOf (items : List (Option Nat)) (s e : Option Arg) : Option Buf :=
     let b := Buf.new n
     some { b with cells := writeAt b.cells 0 ((items.drop st.toNat).take n.toNat), count := n.toNat }
 
+/-- the copying part of `cfun_buffer_blit` once the three offsets are decoded -/
+def Buf.blitCore (dest : Buf) (src : Option (List (Option Nat))) (srcLen : Nat) (offsetDest offsetSrc lengthSrc : Int) :
+    Buf × Outcome Nat :=
+  let last := offsetDest + lengthSrc
+  if last > i32max then (dest, .err)
+  else match dest.ensure last 2 with
+    | none => (dest, .oom)
+    | some d' =>
+      let cnt := if last > d'.count then last.toNat else d'.count
+      -- memmove / memcpy: source bytes are read before any is written (same buffer: after the realloc)
+      let srcNow := match src with | none => readAt d'.cells 0 srcLen | some l => l
+      let bytes := (srcNow.drop offsetSrc.toNat).take lengthSrc.toNat
+      ({ d' with count := cnt, cells := writeAt d'.cells offsetDest.toNat bytes }, .ok)
+
 /-- `cfun_buffer_blit(dest, src, dest-start, src-start, src-end)`; `src = none` means src is dest itself.
 `argc4` = whether a fifth argument was supplied at all -/
 def Buf.blit (dest : Buf) (src : Option (List (Option Nat))) (ds ss : Option Arg) (argc4 : Bool) (se : Option Arg) : Buf × Outcome Nat :=
@@ -520,17 +534,7 @@ def Buf.blit (dest : Buf) (src : Option (List (Option Nat))) (ds ss : Option Arg
         else some (srcLen - offsetSrc)
       match ls with
       | none => (dest, .err)
-      | some lengthSrc =>
-        let last := offsetDest + lengthSrc
-        if last > i32max then (dest, .err)
-        else match dest.ensure last 2 with
-          | none => (dest, .oom)
-          | some d' =>
-            let cnt := if last > d'.count then last.toNat else d'.count
-            -- memmove / memcpy: source bytes are read before any is written (same buffer: after the realloc)
-            let srcNow := match src with | none => readAt d'.cells 0 srcItems.length | some l => l
-            let bytes := (srcNow.drop offsetSrc.toNat).take lengthSrc.toNat
-            ({ d' with count := cnt, cells := writeAt d'.cells offsetDest.toNat bytes }, .ok)
+      | some lengthSrc => dest.blitCore src srcItems.length offsetDest offsetSrc lengthSrc
 
 /-- `janet_put` on a buffer; `value` must pass `janet_checkint` -/
 def Buf.put (b : Buf) (key : Arg) (value : Arg) : Buf × Outcome Nat :=
